@@ -84,21 +84,53 @@ def r1_validation_dominates_use(ctx):
                 src_names |= set(P.names_read(a.value))
         ok = data_p in src_names
         ctx.ob("C14.R1", f"{IMP}::_get_basilisp_bytecode::{P.un(c)}", IMP, l.line, ok, "" if ok else "payload is not taken from the validated buffer")
-    ex = ctx.fn(IMP, "BasilispImporter._exec_cached_module")
-    g2 = CFG(ex)
-    use = [nd for nd in g2.nodes if nd.kind == "stmt" and any(P.un(c.func).endswith("compile_bytecode") for c in P.calls(nd.ast))]
-    val = [nd for nd in g2.nodes if nd.kind == "stmt" and any(P.un(c.func) == "_get_basilisp_bytecode" for c in P.calls(nd.ast))]
-    ok = bool(use) and bool(val) and all(g2.dominated(u, val) for u in use)
-    ctx.ob("C14.R1", f"{IMP}::_exec_cached_module::validated code only", IMP, ex.lineno, ok, "" if ok else "compile_bytecode can run on unvalidated cache data")
-    vcalls = [c for c in P.calls(ex) if P.un(c.func) == "_get_basilisp_bytecode"]
+    # the importer method that validates (calls _get_basilisp_bytecode) and the one that executes
+    # (calls compile_bytecode) -- one method, or two with the validated list handed from one to the other
+    icls = P.find_def(ctx.py(IMP), "BasilispImporter")
+    if icls is None:
+        raise AnalysisError("anchor vanished: BasilispImporter")
+    meths = P.methods(icls)
+    val_m = next((m for m in meths.values() if any(P.un(c.func) == "_get_basilisp_bytecode" for c in P.calls(m))), None)
+    ex = next((m for m in meths.values() if any(P.un(c.func).endswith("compile_bytecode") for c in P.calls(m))), None)
+    if val_m is None or ex is None:
+        raise AnalysisError("the importer no longer validates with _get_basilisp_bytecode / executes with compile_bytecode in its own methods")
+    cb = [x for x in P.calls(ex) if P.un(x.func).endswith("compile_bytecode")]
+    if val_m is ex:
+        g2 = CFG(ex)
+        use = [nd for nd in g2.nodes if nd.kind == "stmt" and any(P.un(c.func).endswith("compile_bytecode") for c in P.calls(nd.ast))]
+        val = [nd for nd in g2.nodes if nd.kind == "stmt" and any(P.un(c.func) == "_get_basilisp_bytecode" for c in P.calls(nd.ast))]
+        ok = bool(use) and bool(val) and all(g2.dominated(u, val) for u in use)
+    else:
+        # the executed list is a parameter of the executing method; every caller passes what the
+        # validating method returned, and that method returns the validator's result
+        fed = P.un(cb[0].args[0]) if cb and cb[0].args else None
+        params_x = [a.arg for a in ex.args.args]
+        rets = [r for r in ast.walk(val_m) if isinstance(r, ast.Return) and r.value is not None]
+        returns_validated = bool(rets) and all(
+            (isinstance(r.value, ast.Call) and P.un(r.value.func) == "_get_basilisp_bytecode")
+            or any(isinstance(a, ast.Assign) and P.un(a.targets[0]) == P.un(r.value) and isinstance(a.value, ast.Call) and P.un(a.value.func) == "_get_basilisp_bytecode" for a in ast.walk(val_m))
+            for r in rets)
+        ok = fed in params_x and returns_validated
+        if ok:
+            pos = params_x.index(fed) - 1  # minus self
+            for m in meths.values():
+                for c in P.calls(m):
+                    if P.un(c.func) == f"self.{ex.name}":
+                        arg = P.un(c.args[pos]) if len(c.args) > pos else None
+                        src = [a for a in ast.walk(m) if isinstance(a, ast.Assign) and P.un(a.targets[0]) == arg]
+                        ok = ok and bool(src) and all(isinstance(a.value, ast.Call) and P.un(a.value.func) == f"self.{val_m.name}" for a in src)
+    ctx.ob("C14.R1", f"{IMP}::cached code is executed only after validation", IMP, ex.lineno, ok, "" if ok else "compile_bytecode can run on unvalidated cache data")
+    vcalls = [c for c in P.calls(val_m) if P.un(c.func) == "_get_basilisp_bytecode"]
     for c in vcalls:
         args = [P.un(a) for a in c.args]
         ok = len(args) == 4 and args[1] == "path_stats['mtime']" and args[2] == "path_stats['size']"
-        ctx.ob("C14.R1", f"{IMP}::_exec_cached_module::{P.un(c)}", IMP, c.lineno, ok, "" if ok else "validation is not given (mtime, size) of the source in that order")
-        assigned = [P.un(t) for a in P.walk_local(ex) if isinstance(a, ast.Assign) and a.value is c for t in a.targets]
-        cb = [x for x in P.calls(ex) if P.un(x.func).endswith("compile_bytecode")]
-        ok = bool(assigned) and all(P.un(x.args[0]) == assigned[0] for x in cb)
-        ctx.ob("C14.R1", f"{IMP}::_exec_cached_module::compile_bytecode consumes the validated result", IMP, c.lineno, ok, "" if ok else "compile_bytecode is fed something other than the validated code list")
+        ctx.ob("C14.R1", f"{IMP}::validation is given (mtime, size) of the source", IMP, c.lineno, ok, "" if ok else f"`{P.un(c)}`: validation is not given (mtime, size) of the source in that order")
+        if val_m is ex:
+            assigned = [P.un(t) for a in P.walk_local(ex) if isinstance(a, ast.Assign) and a.value is c for t in a.targets]
+            ok = bool(assigned) and all(P.un(x.args[0]) == assigned[0] for x in cb)
+        else:
+            ok = bool(cb) and all(P.un(x.args[0]) in [a.arg for a in ex.args.args] for x in cb)
+        ctx.ob("C14.R1", f"{IMP}::compile_bytecode consumes the validated result", IMP, c.lineno, ok, "" if ok else "compile_bytecode is fed something other than the validated code list")
     ps = ctx.fn(IMP, "BasilispImporter.path_stats")
     txt = P.un(ps)
     ok = "'mtime': int(stat.st_mtime)" in txt and "'size': stat.st_size" in txt and "os.stat(path)" in txt
@@ -201,10 +233,31 @@ def r2_layout_agreement(ctx):
         ctx.ob("C14.R2", f"{IMP}::layout::{name}[{a}:{b if b is not None else ''}]", IMP, line, ok,
                "" if ok else f"writer puts {name} at [{a}:{b}], reader takes `{v}` from [{lo}:{hi}]")
     # _w_long/_r_long symmetric use: reader converts with _r_long what the writer wrote with _w_long
+    # ... and compares like with like: the writer stores the value reduced to the field's width, so
+    # the reader must compare the stored field with the value reduced the same way (the bytes with
+    # _w_long(x), or the decoded integer with the masked x) -- against the raw value a cache written
+    # for an mtime or size outside 32 bits never validates, and the source is recompiled for ever
+    masks = any(isinstance(b, ast.BinOp) and isinstance(b.op, ast.BitAnd) for b in ast.walk(wl))
     for v, s in sem.items():
-        if s in wparams[:2]:
-            used = any(P.un(c.func) == "_r_long" and P.un(c.args[0]) == v for c in P.calls(r))
-            ctx.ob("C14.R2", f"{IMP}::layout::{s} decoded with _r_long", IMP, r.lineno, used, "" if used else f"`{v}` is compared without _r_long decoding")
+        if s not in wparams[:2]:
+            continue
+        rparam = rparams[1] if s == wparams[0] else rparams[2]
+        cmps = [t for t in ast.walk(r) if isinstance(t, ast.Compare) and isinstance(t.ops[0], (ast.NotEq, ast.Eq)) and v in P.names_read(t) and rparam in P.names_read(t)]
+        ok, why = bool(cmps), f"`{v}` is never compared with `{rparam}`"
+        for t in cmps:
+            sides = [P.un(t.left), P.un(t.comparators[0])]
+            field = next((x for x in sides if v in x), "")
+            other = next((x for x in sides if x != field), "")
+            if field == v:
+                good = other == f"_w_long({rparam})"
+            elif field == f"_r_long({v})":
+                good = other in (f"_r_long(_w_long({rparam}))", f"{rparam} & 4294967295", f"{rparam} & 0xFFFFFFFF", f"int({rparam}) & 4294967295") or not masks
+            else:
+                good = False
+            if not good:
+                ok, why = False, f"`{P.un(t)}` compares the stored 32-bit field with the unreduced `{rparam}`: for an mtime or size outside 32 bits the cache the loader has just written never validates"
+        ctx.ob("C14.R2", f"{IMP}::layout::{s} compared as written", IMP, r.lineno, ok, "" if ok else why,
+               witness="a source file with mtime 4418020800 is recompiled on every import")
 
 
 @rule("C14.R3", floor=5)
@@ -213,10 +266,34 @@ def r3_invalid_cache_reaches_fallback(ctx):
     payload is covered by the tuple caught in exec_module, whose handler recompiles from source;
     _exec_module writes the cache on every path except sys.dont_write_bytecode."""
     em = ctx.fn(IMP, "BasilispImporter.exec_module")
-    tries = [t for t in ast.walk(em) if isinstance(t, ast.Try) and any("_exec_cached_module" in P.un(s) for s in t.body)]
+    icls = P.find_def(ctx.py(IMP), "BasilispImporter")
+    meths = P.methods(icls) if icls is not None else {}
+
+    def reaches(stmts, targets, seen=None):
+        """Does a call in `stmts` reach, through methods of the importer, a call whose name ends with one of `targets`?"""
+        seen = seen if seen is not None else set()
+        for s in stmts:
+            for c in P.calls(s):
+                f = P.un(c.func)
+                if any(f == t or f.endswith("." + t) for t in targets):
+                    return True
+                if f.startswith("self.") and f[5:] in meths and f[5:] not in seen:
+                    seen.add(f[5:])
+                    if reaches(meths[f[5:]].body, targets, seen):
+                        return True
+        return False
+
+    tries = [t for t in ast.walk(em) if isinstance(t, ast.Try) and reaches(t.body, ("_get_basilisp_bytecode",))]
     if not tries:
-        raise AnalysisError("exec_module no longer wraps _exec_cached_module in try")
+        raise AnalysisError("exec_module no longer reads the cache inside a try")
     t = tries[0]
+    # the fallback is for a cache that cannot be *read*; what the try covers must not also run the
+    # namespace's code, or an OSError / ImportError / EOFError raised by that code is taken for a bad
+    # cache and the namespace is compiled and run a second time
+    runs = reaches(t.body, ("compile_bytecode", "compile_module", "exec"))
+    ctx.ob("C14.R3", f"{IMP}::exec_module::the try that falls back covers reading the cache only", IMP, t.lineno, not runs,
+           "" if not runs else "the try whose handler recompiles from source also executes the cached code: an exception of a caught class raised by the namespace's own top-level code runs every side effect twice, the second time in a half-initialised module",
+           witness="a cached namespace whose top level does (slurp missing-file): the forms before it run twice")
     caught: set[str] = set()
     fallback = False
     for h in t.handlers:
@@ -362,12 +439,21 @@ def r4_baked_constants_are_validated_hints(ctx):
 
 
 SELFTEST = [
+    {"name": "header compared with the unmasked value (the repaired defect)", "file": IMP, "expect": "C14.R2",
+     "old": "    elif raw_timestamp != _w_long(mtime):\n", "new": "    elif _r_long(raw_timestamp) != mtime:\n"},
+    {"name": "twin: header compared as decoded, masked integers", "file": IMP, "expect": None,
+     "old": "    elif raw_size != _w_long(source_size):\n", "new": "    elif _r_long(raw_size) != _r_long(_w_long(source_size)):\n"},
+    {"name": "the fallback try also executes the cached code (the repaired defect)", "file": IMP, "expect": "C14.R3",
+     "edits": [
+         {"file": IMP, "old": "                else:\n                    self._exec_cached_module(\n                        fullname, spec.loader_state, cached_code, module\n                    )\n", "new": ""},
+         {"file": IMP, "old": "                    cached_code = self._load_cached_code(\n                        fullname, spec.loader_state, path_stats\n                    )\n",
+          "new": "                    cached_code = self._load_cached_code(\n                        fullname, spec.loader_state, path_stats\n                    )\n                    self._exec_cached_module(\n                        fullname, spec.loader_state, cached_code, module\n                    )\n"}]},
     {"name": "size comparison dropped", "file": IMP, "expect": "C14.R1",
-     "old": "    elif _r_long(raw_size) != source_size:\n        message = f\"Non-matching filesize ({_r_long(raw_size)}) in {fullname} bytecode cache; expected {source_size}\"\n        logger.debug(message)\n        raise ImportError(message, **exc_details)\n", "new": ""},
+     "old": "    elif raw_size != _w_long(source_size):\n        message = f\"Non-matching filesize ({_r_long(raw_size)}) in {fullname} bytecode cache; expected {source_size}\"\n        logger.debug(message)\n        raise ImportError(message, **exc_details)\n", "new": ""},
     {"name": "stale timestamp only logged", "file": IMP, "expect": "C14.R1",
      "old": "        message = f\"Non-matching timestamp ({_r_long(raw_timestamp)}) in {fullname} bytecode cache; expected {mtime}\"\n        logger.debug(message)\n        raise ImportError(message, **exc_details)\n", "new": "        message = f\"Non-matching timestamp ({_r_long(raw_timestamp)}) in {fullname} bytecode cache; expected {mtime}\"\n        logger.debug(message)\n"},
     {"name": "mtime/size swapped at the call", "file": IMP, "expect": "C14.R1",
-     "old": "                fullname, path_stats[\"mtime\"], path_stats[\"size\"], cache_data\n", "new": "                fullname, path_stats[\"size\"], path_stats[\"mtime\"], cache_data\n"},
+     "old": "            fullname, path_stats[\"mtime\"], path_stats[\"size\"], cache_data\n", "new": "            fullname, path_stats[\"size\"], path_stats[\"mtime\"], cache_data\n"},
     {"name": "timestamp slice one byte short", "file": IMP, "expect": "C14.R2",
      "old": "    raw_timestamp = cache_data[4:8]", "new": "    raw_timestamp = cache_data[4:7]"},
     {"name": "writer emits size before mtime", "file": IMP, "expect": "C14.R2",
